@@ -166,7 +166,9 @@ def run(R):
         f = fields(line)
         if f.get("ret") == "NULL": continue
         part = unhx(f.get("out"))[-CS.DIGLEN.get(m, 43):]
-        if (m, part) in seen_cost and seen_cost[(m, part)][0] != arg:
+        # (two loops may produce the very same setting under different labels - N=2^4,r=3 is reached by the r-sweep and by the N-sweep of the
+        # thorough tier: only DIFFERENT settings must differ in their hash part)
+        if (m, part) in seen_cost and seen_cost[(m, part)][0] != arg and seen_cost[(m, part)][1].split(" ")[4] != op.split(" ")[4]:
             bad.append((seen_cost[(m, part)][1] + " ; " + op, "%s: the settings with %s and %s (same salt, same phrase) give the same hash part" % (m, seen_cost[(m, part)][0], arg), line))
         seen_cost.setdefault((m, part), (arg, op))
     R.cov["evaluations"] = len(ops)
